@@ -376,6 +376,11 @@ class SortDispatch(Family):
                 SymNumpy.lexsort = old_lex
             else:
                 del SymNumpy.lexsort
+        if len(calls) != 1 or not isinstance(out, RaggedArray):
+            # an implementation that does not go through one numpy.lexsort: this script cannot state its contract - undecided, the family's concrete
+            # cases and the stand-in decide
+            from ..sym.core import Unsupported
+            raise Unsupported("RaggedArray.sort does not call numpy.lexsort exactly once; the proof script knows only that shape")
         ok = (len(calls) == 1 and isinstance(calls[0][0], (tuple, list)) and len(calls[0][0]) == 2 and calls[0][1] == -1
               and all(isinstance(k_, SymArr) and k_.ndim == 1 for k_ in calls[0][0]) and isinstance(out, RaggedArray)
               and calls[0][0][0].kind == Dbuf.kind and calls[0][0][1].kind == "int")      # lexsort's LAST key is the primary one: (values, row numbers)
